@@ -847,7 +847,8 @@ Proof.
   assert (Hstep : forall t, delim s1 t = true ->
             caw (S (S f)) (v ++ t) line false last acc lead = caw (S f) t line false w1 (w1 :: acc) lead).
   { intros t Ht. cbn [caw]. rewrite (Hv t Ht). cbn [negb andb]. rewrite Hspecial.
-    destruct (isq w1 || weq last [bs]) eqn:E1; [reflexivity|].
+    destruct (isq w1 || weq last [bs]) eqn:E1;
+      [change (negb (isq w1) && is1 w1 bs) with (weq w1 [bs]); rewrite Hnb; reflexivity|].
     cbn [orb] in Hacc. rewrite Hacc. cbn [negb].
     assert (Hb : is1 w1 bs = false).
     { apply orb_false_iff in E1 as [E1 _]. unfold weq in Hnb. rewrite E1 in Hnb. exact Hnb. }
@@ -1025,7 +1026,7 @@ Proof.
     + destruct (is1 w ";"); [apply Hfin|].
       destruct (negb (is1 w "#")); [apply Hfin|apply IH].
     + destruct (isq w || weq last [bs]).
-      * destruct hc; [apply IH|apply (IH r l false w (w :: acc) lead)].
+      * destruct (hc || negb (isq w) && is1 w bs); [apply IH|apply (IH r l hc w (w :: acc) lead)].
       * destruct (negb (wline w =? wline last)%nat); [apply Hfin|].
         destruct (hc || is1 w bs); [apply IH|apply (IH r l hc w (w :: acc) lead)].
   - reflexivity.
@@ -1713,7 +1714,8 @@ Proof.
     assert (Hnext : caw (length ws + f) (vs ++ t) line false w (w :: acc) lead
                     = caw f t line false (List.last (w :: ws) last) (rev (w :: ws) ++ acc) lead).
     { rewrite (IH f t w (w :: acc) lead Ht Hwl). rewrite last_cons. cbn [rev]. rewrite <- app_assoc. reflexivity. }
-    destruct (isq w || weq last [bs]) eqn:E1; [exact Hnext|].
+    destruct (isq w || weq last [bs]) eqn:E1;
+      [change (negb (isq w) && is1 w bs) with (weq w [bs]); rewrite Hnb; exact Hnext|].
     rewrite Hwl, Hlast, Nat.eqb_refl. cbn [negb].
     apply orb_false_iff in E1 as [E1 _]. unfold weq in Hnb. rewrite E1 in Hnb. cbn [negb andb] in Hnb.
     unfold is1. rewrite Hnb. exact Hnext.
